@@ -73,6 +73,8 @@ def make_allowed_callable(rec_getter):
             return True
         if getattr(o, '_sim_kind', None) == 'lambda':
             return True
+        if str(getattr(o, '_sim_kind', '')).startswith('host:re'):
+            return True         # a function the host itself bound in names
         return False
     return allowed
 
